@@ -6,8 +6,9 @@ open Qvnt
 #print axioms C06_empty
 #print axioms C06_beyond
 #print axioms C06_zero
-#print axioms C06_zero_fails_degenerate
-#print axioms C06_zero_fails_rare
+#print axioms C06_impossible_draw
 #print axioms C06_ratio
+#print axioms C06_ratio_exact
 #print axioms C06_support
+#print axioms C06_drawn_survives
 #print axioms C06_repeat
